@@ -370,10 +370,18 @@ def apply_unified(old_text, diff_text):
             continue
         ostart = int(m.group(1))
         ocount = int(m.group(2)) if m.group(2) is not None else 1
+        ncount = int(m.group(4)) if m.group(4) is not None else 1
         start0 = ostart - 1 if ocount > 0 else ostart
         out += old[pos:start0]
         pos = start0
         i += 1
+        # strict, as `patch` is: the header's line counts must be the body's (a mismatch is a malformed diff)
+        body = []
+        j = i
+        while j < len(lines) and not lines[j].startswith("@@"):
+            body.append(lines[j]); j += 1
+        if sum(1 for l in body if l[:1] in (" ", "-")) != ocount or sum(1 for l in body if l[:1] in (" ", "+")) != ncount:
+            return None
         while i < len(lines) and not lines[i].startswith("@@"):
             l = lines[i]
             if l.startswith("\\"):
@@ -441,6 +449,8 @@ def c18(tier, seed):
         "huge-one-change": "".join("x = %d\n" % i if i != 60000 else "x   =   %d\n" % i for i in range(120000)),
         "empty": "",
     }
+    # the file on which `similar`'s compaction leaves stale index fields (D41, fix a2545ec): always in the pool
+    specials["inputs/table-6.lua (stale indices)"] = open(os.path.join(corpus, "inputs", "table-6.lua"), encoding="utf-8").read()
     cases = [(os.path.relpath(p, corpus), open(p, encoding="utf-8").read()) for p in pool] + list(specials.items())
     n = 0
     multi_inserts = []
